@@ -232,8 +232,8 @@ pub fn tree_battery<T: Sym>(rep: &mut Rep, t: &dyn DynTree<T>, m: &SeqModel, rng
         chk!(rep, "sigma", (), Exp::Is(Some(exp)), t.sigma_());
     }
     if let Some(l) = crate::outcome::guard(|| t.n_levels_()).val() {
+        // recorded, not part of the digest of answers (equally good Huffman codes may differ in depth)
         rep.gate_max("max_levels", l as u64);
-        dg.add(1, l as u128);
     }
 
     // ---- get
